@@ -33,7 +33,36 @@ def create_buffer_len_is_arg(prog):
                 pushes += 1
             if c.endswith('into_boxed_slice'):
                 boxed += 1
-    return pushes == 1 and ranges == 1 and boxed == 1
+    if pushes == 1 and ranges == 1 and boxed == 1:
+        return True
+    # vec![x; n] (std::vec::from_elem(x, n)) or Vec::resize(n, x) on a fresh vector, then into_boxed_slice
+    def is_arg(op, depth=0):
+        if op['k'] not in ('copy', 'move') or op['place']['proj'] or depth > 6:
+            return False
+        loc_ = op['place']['local']
+        if loc_ == 1:
+            return True
+        defs = [s_['rv'] for b_ in fn['blocks'] for s_ in b_['stmts']
+                if s_['k'] == 'assign' and s_['place']['local'] == loc_ and not s_['place']['proj']]
+        return len(defs) == 1 and defs[0]['k'] == 'use' and is_arg(defs[0]['op'], depth + 1)
+    sized = 0
+    other = 0
+    for b in fn['blocks']:
+        if b['cleanup']:
+            continue
+        t = b['term']
+        if t['k'] != 'call':
+            continue
+        c = t['resolved'] or t['callee']
+        if c.startswith('std::vec::from_elem') and len(t['args']) == 2 and is_arg(t['args'][1]):
+            sized += 1
+        elif c.endswith('Vec::<T, A>::resize') and len(t['args']) == 3 and is_arg(t['args'][1]):
+            sized += 1
+        elif c.endswith('into_boxed_slice') or c.endswith('Vec::<T>::new') or c.endswith('Vec::<T>::with_capacity'):
+            pass
+        else:
+            other += 1
+    return sized == 1 and boxed == 1 and pushes == 0 and other == 0
 
 
 def obligation_key(fname, ev, ordinal):
